@@ -2,3 +2,6 @@ import SqlModel.Basic
 import SqlModel.Regex
 import SqlModel.Lexer
 import SqlModel.Default
+import SqlModel.Splitter
+import SqlModel.Tree
+import SqlModel.Pipeline
